@@ -152,6 +152,7 @@ type Case struct {
 
 	Routers []RouterDef `json:"routers,omitempty"`
 	Reqs    []Req       `json:"reqs,omitempty"`
+	HTTP    bool        `json:"http,omitempty"` // through aries.Serve(r).ServeHTTP and a parsed request line
 
 	Internal bool    `json:"internal,omitempty"`
 	U0       string  `json:"u0,omitempty"`
@@ -424,10 +425,30 @@ func runRouter(c *Case) {
 		}
 		w := httptest.NewRecorder()
 		var err error
-		p := guard(func() {
-			cc := aries.NewContext(w, req)
-			err = routers[0].Serve(cc)
-		})
+		var p string
+		if c.HTTP {
+			// the whole net/http entry: request line parsing, NewContext,
+			// Func.ServeHTTP and the error-to-status mapping
+			p = guard(func() {
+				hreq := httptest.NewRequest(q.Method, q.Path, nil)
+				aries.Serve(routers[0]).ServeHTTP(w, hreq)
+			})
+			switch w.Code {
+			case 200:
+				err = nil
+			case 404:
+				err = aries.Miss
+			case 400:
+				err = errcode.InvalidArgf("unsupported method: %q", q.Method)
+			default:
+				err = fmt.Errorf("status %d", w.Code)
+			}
+		} else {
+			p = guard(func() {
+				cc := aries.NewContext(w, req)
+				err = routers[0].Serve(cc)
+			})
+		}
 		ro := ReqObs{Tag: -1}
 		if p != "" {
 			ro.Err = "panic"
@@ -948,6 +969,20 @@ func genCases(seed uint64, tier string) []Case {
 				p = randStr(r, "ab/", 9)
 			}
 			reqs = append(reqs, Req{Path: p, Method: []string{"GET", "GET", "POST", ""}[r.Intn(4)]})
+		}
+		if n%5 == 4 {
+			// every fifth set goes through the HTTP entry point: request targets
+			// must be origin-form, methods real
+			for i := range reqs {
+				if !strings.HasPrefix(reqs[i].Path, "/") {
+					reqs[i].Path = "/" + reqs[i].Path
+				}
+				if reqs[i].Method == "" {
+					reqs[i].Method = "GET"
+				}
+			}
+			add(Case{Stream: "router-http", Kind: "router", Routers: defs, Reqs: reqs, HTTP: true})
+			continue
 		}
 		add(Case{Stream: "router", Kind: "router", Routers: defs, Reqs: reqs})
 	}
